@@ -623,6 +623,29 @@ fn diff_case(ctx: &Ctx, rng: &mut Rng, id: u64, st: &mut Stats) {
 }
 
 // ------------------------------------------------------------------ C/D: decoding
+/// `Read + Seek` over a buffer whose `read` returns at most `chunk` bytes (0 = no limit): a host
+/// reader is allowed to return short reads, and what is decoded must not depend on it.
+struct ChunkedReader {
+    inner: std::io::Cursor<Vec<u8>>,
+    chunk: usize,
+}
+impl std::io::Read for ChunkedReader {
+    fn read(&mut self, buf: &mut [u8]) -> std::io::Result<usize> {
+        let n = if self.chunk == 0 { buf.len() } else { buf.len().min(self.chunk) };
+        self.inner.read(&mut buf[..n])
+    }
+}
+impl std::io::Seek for ChunkedReader {
+    fn seek(&mut self, p: std::io::SeekFrom) -> std::io::Result<u64> {
+        self.inner.seek(p)
+    }
+}
+fn chunked(file: &[u8]) -> ChunkedReader {
+    let mut h = FNV_INIT;
+    fnv1a(&mut h, &file[..file.len().min(512)]);
+    ChunkedReader { inner: std::io::Cursor::new(file.to_vec()), chunk: [0usize, 0, 1, 7, 40, 255, 256][(h % 7) as usize] }
+}
+
 fn delharc_unpack(packed: &[u8], n: usize) -> Result<Vec<u8>, String> {
     let mut out = vec![0u8; n];
     let mut d = Lh5Decoder::new(std::io::Cursor::new(packed));
@@ -722,7 +745,7 @@ fn decode_case(ctx: &Ctx, rng: &mut Rng, id: u64, st: &mut Stats) {
     st.evals += 1;
     st.decode_cases += 1;
     st.samples += data.len() as u64;
-    match crate::host::catch(|| Vtx::load(std::io::Cursor::new(&file[..]))) {
+    match crate::host::catch(|| Vtx::load(chunked(&file[..]))) {
         Ok(Ok(v)) => check_loaded(ctx, "synthetic file", &v, &h, &data, &wit),
         Ok(Err(e)) => ctx.violation("decode-rejects-valid-file", &format!("Vtx::load failed on a well-formed file: {}", e), wit()),
         Err(p) => ctx.violation("decode-panics-on-valid-file", &format!("Vtx::load panicked on a well-formed file: {}", p), wit()),
@@ -757,7 +780,7 @@ fn repo_files(ctx: &Ctx, st: &mut Stats) -> u64 {
         let wit = || jobj! {"monitor"=>"decode-repo-file","file"=>name.as_str()};
         st.evals += 1;
         st.samples += data.len() as u64;
-        match crate::host::catch(|| Vtx::load(std::io::Cursor::new(&file[..]))) {
+        match crate::host::catch(|| Vtx::load(chunked(&file[..]))) {
             Ok(Ok(v)) => check_loaded(ctx, &name, &v, &h, &data, &wit),
             Ok(Err(e)) => ctx.violation("decode-rejects-valid-file", &format!("Vtx::load failed on {}: {}", name, e), wit()),
             Err(pm) => ctx.violation("decode-panics-on-valid-file", &format!("Vtx::load panicked on {}: {}", name, pm), wit()),
